@@ -59,6 +59,21 @@ skips `\r` and `\n` wherever they occur. -/
 def unb64 (s : List Char) : Res Bytes :=
   decQ ((s ++ List.replicate ((4 - s.length % 4) % 4) '=').filter (fun c => !isNl c))
 
+/-- Clear the low bits of an alphabet character's 6-bit value (`m` = 16: low four bits, 4: low two). -/
+def clearLow (m : Nat) (c : Char) : Char :=
+  match sextet c with
+  | some n => encChar (n / m * m)
+  | none => c
+
+/-- The canonical form of an unpadded base64url text: the bits of the last character that carry no
+data (four after a 2-character tail, two after a 3-character tail) set to zero. The decoder accepts
+a text iff it accepts its canonical form, with the same octets — this is all of its leniency. -/
+def canonLast : List Char → List Char
+  | c1 :: c2 :: c3 :: c4 :: rest => c1 :: c2 :: c3 :: c4 :: canonLast rest
+  | [c1, c2] => [c1, clearLow 16 c2]
+  | [c1, c2, c3] => [c1, c2, clearLow 4 c3]
+  | s => s
+
 /-! ## compact serialisation (jws.go / jwe.go: CompactSerialize, parseSignedCompact, parseEncryptedCompact) -/
 
 /-- `strings.Split(s, ".")`. -/
@@ -266,7 +281,7 @@ def aesKeyOk (n : Nat) : Bool := n = 16 || n = 24 || n = 32
 /-- What happens before the primitive's `Open` is entered, as a function of the lengths only:
 `err` = rejected, `panic` = a documented panic of the standard library would be hit (nil hash for a
 CBC-HMAC key of 31/47/63 bytes), `ok` = `Open` is called with well-sized parameters. -/
-def precheck (e : Enc) (keyLen ivLen tagLen : Nat) : Res Unit :=
+def precheck (e : Enc) (keyLen ivLen ctLen tagLen : Nat) : Res Unit :=
   -- getAead(key)
   if e.isGcm then
     if !aesKeyOk keyLen then err .generic
@@ -275,19 +290,21 @@ def precheck (e : Enc) (keyLen ivLen tagLen : Nat) : Res Unit :=
   else
     if !aesKeyOk (keyLen - keyLen / 2) then err .generic
     else if ivLen ≠ e.nonceSize ∨ tagLen < e.tagBytes then err .generic
+    else if ctLen + tagLen < keyLen / 2 then err .generic   -- cbcAEAD.Open: shorter than its tag
     else if !aesKeyOk (keyLen / 2) then .panic      -- hash == nil: hmac.New(nil, …) in computeAuthTag
     else ok ()
 
 /-- The same before the repair of F15: no length check — a wrong nonce length reaches
 `cipher.NewGCM(...).Open` (documented panic); CBC-HMAC compares the tag first, so a wrong IV length
 only panics (in `NewCBCDecrypter`) when the tag matches. -/
-def precheckUnrepaired (e : Enc) (keyLen ivLen _tagLen : Nat) : Res Unit :=
+def precheckUnrepaired (e : Enc) (keyLen ivLen ctLen tagLen : Nat) : Res Unit :=
   if e.isGcm then
     if !aesKeyOk keyLen then err .generic
     else if ivLen ≠ 12 then .panic
     else ok ()
   else
     if !aesKeyOk (keyLen - keyLen / 2) then err .generic
+    else if ctLen + tagLen < keyLen / 2 then err .generic
     else if !aesKeyOk (keyLen / 2) then .panic
     else ok ()
 
